@@ -124,6 +124,7 @@ static void dump(struct archive_entry *e)
 	{
 		unsigned long s, c; archive_entry_fflags(e, &s, &c);
 		printf(" ff=%lu,%lu", s, c);
+		printf(" fft="); put_s(archive_entry_fflags_text(e));
 	}
 	printf(" slt=%d", archive_entry_symlink_type(e));
 	printf(" enc=%d,%d,%d", archive_entry_is_data_encrypted(e), archive_entry_is_metadata_encrypted(e), archive_entry_is_encrypted(e));
@@ -196,6 +197,20 @@ static void e_op(char *line)
 	else if (n == 2 && IS("set_perm")) archive_entry_set_perm(e, (mode_t)ULL(1));
 	else if (n == 2 && IS("set_filetype")) archive_entry_set_filetype(e, (unsigned)ULL(1));
 	else if (n == 3 && IS("set_fflags")) archive_entry_set_fflags(e, ULL(1), ULL(2));
+	else if (n == 2 && IS("copy_fflags_text") && strcmp(w[1], "~") != 0) {
+		char *s = arg_str(w[1]); const char *f = archive_entry_copy_fflags_text(e, s);
+		if (f == NULL) snprintf(ret, sizeof ret, "null"); else snprintf(ret, sizeof ret, "%ld", (long)(f - s));
+		free(s);
+	}
+	else if (n == 2 && IS("copy_fflags_text_w") && strcmp(w[1], "~") != 0) {
+		char *s = arg_str(w[1]); wchar_t *ws = utf8_to_w(s); const wchar_t *f = archive_entry_copy_fflags_text_w(e, ws);
+		if (f == NULL) snprintf(ret, sizeof ret, "null"); else snprintf(ret, sizeof ret, "%ld", (long)(f - ws));
+		free(s); free(ws);
+	}
+	else if (n == 1 && IS("fflags_text")) {
+		const char *t = archive_entry_fflags_text(e);
+		printf("r="); put_s(t); ret[0] = 0;
+	}
 	else if (n == 2 && IS("set_symlink_type")) archive_entry_set_symlink_type(e, (int)LL(1));
 	else if (n == 2 && IS("set_is_data_encrypted")) archive_entry_set_is_data_encrypted(e, (char)LL(1));
 	else if (n == 2 && IS("set_is_metadata_encrypted")) archive_entry_set_is_metadata_encrypted(e, (char)LL(1));
